@@ -1,4 +1,5 @@
 #include "runtime.h"
+#include "d_scalar.h"
 #include "verif_hooks.h"
 #include "diagnostics/stacktrace.h"
 #include "d_array.h"
@@ -67,6 +68,8 @@ static sqf::runtime::runtime::result execute_do(sqf::runtime::runtime& runtime, 
 {
     auto& context_active = runtime.context_active();
     auto& runtime_error = runtime.__runtime_error();
+    // Number formatting is a setting of this runtime: whatever another runtime selected on this thread does not apply here
+    sqf::types::d_scalar::set_decimals(runtime.scalar_decimals());
 #ifdef SQFVM_RUNTIME_VERIF
     struct verif_slice_guard
     {
